@@ -233,6 +233,32 @@ def run(tier, out):
                         events.append({"tid": tid, "seq": 0, "ev": "Invalid", "where": where, "cls": cname, "attr": p,
                                        "what": what, "exc": exc, "changed": changed(ns, before, objs)[:6]})
                         out.nontrivial.add((cname, p, what, where))
+        # two changes of one update that are each allowed with the value the OTHER attribute had before, and not allowed together:
+        # an on-premise server becomes autoscaling and is given a fixed number of instances at once (both orders)
+        for cname in ("Server", "GPUServer", "BoaviztaCloudServer"):
+            for order in (0, 1):
+                ctx = context(ns)
+                target = ctx.get(cname)
+                if target is None:
+                    continue
+                system = ns.classes["System"]("live", usage_patterns=[ctx["UsagePattern"]])
+                objs = {k: v for k, v in ctx.items() if v is not None}
+                objs["System"] = system
+                if target.server_type.value != "on-premise":
+                    target.server_type = ns.SourceObject("on-premise")
+                before = state_of(ns, objs)
+                pair = [[target.server_type, ns.SourceObject("autoscaling")],
+                        [target.fixed_nb_of_instances, ns.SourceValue(1000 * ns.u.dimensionless)]]
+                exc = "none"
+                try:
+                    ns.ModelingUpdate(pair[::-1] if order else pair)
+                except Exception as ex:   # noqa
+                    exc = type(ex).__name__
+                tid += 1
+                events.append({"tid": tid, "seq": 0, "ev": "Invalid", "where": "grouped-pair-not-allowed-together", "cls": cname,
+                               "attr": "server_type+fixed_nb_of_instances", "what": "conditional-value-not-allowed", "exc": exc,
+                               "changed": changed(ns, before, objs)[:6]})
+                out.nontrivial.add((cname, "server_type+fixed_nb_of_instances", "pair", str(order)))
         # identity level: an update refused by the validation (at parse time, or by the allowed-values check after the values
         # were applied) is EFSim's Update action failing at its first or second step: all or nothing
         from . import c05
